@@ -64,6 +64,8 @@ type Version struct {
 }
 
 type Scenario struct {
+	// SeqBurn: the fixed pathbadger scenario around the uint16 sequence counter (runSeqBurn)
+	SeqBurn bool `json:"seqburn,omitempty"`
 	Backend  string    `json:"backend"`
 	Backend2 string    `json:"backend2"`
 	Type     string    `json:"type"` // "state" | "io"
@@ -496,7 +498,185 @@ type storedRoot struct {
 	hash hash.Hash
 }
 
+// runSeqBurn: one version of a pathbadger database; root A is committed (sequence number 0,
+// final node slots), then sequence numbers are burnt with abandoned batches (NewBatch + Reset,
+// what every rejected Apply does) up to the uint16 bound, and competing roots B, C, D with the same
+// shape and other values are committed after 65534, 65535 and 65536 reservation attempts.  The unchanged
+// code grants 65534 to B and answers "too many non-finalized roots" to C and D; whatever is
+// granted, the log served for (R0, A) must stay A's.
+func runSeqBurn(sc Scenario) (res runResult) {
+	res.hist = map[string]int{}
+	defer func() {
+		if e := recover(); e != nil {
+			res.violations = append(res.violations, fmt.Sprintf("implementation panicked: %v", e))
+			res.panicked = true
+		}
+	}()
+	ctx := context.Background()
+	b1, err := openBackend("pathbadger")
+	if err != nil {
+		panic(err)
+	}
+	defer b1.close()
+	ndb := b1.impl.NodeDB()
+	var emptyHash hash.Hash
+	emptyHash.Empty()
+	root0 := node.Root{Namespace: testNs, Version: 0, Type: node.RootTypeState, Hash: emptyHash}
+	hashIDs := map[hash.Hash]int{emptyHash: 0}
+	rid := func(r node.Root) string {
+		id, ok := hashIDs[r.Hash]
+		if !ok {
+			id = len(hashIDs)
+			hashIDs[r.Hash] = id
+		}
+		return fmt.Sprintf("(%d, %d)", r.Version, id)
+	}
+	node2coq := func(n pathbadger.VerifStoredNode) string {
+		switch {
+		case !n.Internal:
+			return fmt.Sprintf("(SLeaf %s %s)", coqout.Bytes(n.LeafKey), coqout.Bytes(n.LeafValue))
+		case n.HasLeaf:
+			return fmt.Sprintf("(SInternal (Some (%s, %s)))", coqout.Bytes(n.LeafKey), coqout.Bytes(n.LeafValue))
+		}
+		return "(SInternal None)"
+	}
+	var calls, obs []string
+	type stored struct {
+		root node.Root
+		log  []entry
+	}
+	var roots []stored
+	tooMany := func(err error) bool {
+		return err != nil && strings.Contains(err.Error(), "too many non-finalized roots")
+	}
+	commit := func(val string) {
+		t := mkvs.NewWithRoot(nil, ndb, root0)
+		defer t.Close()
+		for _, k := range []string{"a", "b"} {
+			if err := t.Insert(ctx, []byte(k), []byte(val)); err != nil {
+				panic(err)
+			}
+		}
+		cwl, h, err := t.Commit(ctx, testNs, 1)
+		end := node.Root{Namespace: testNs, Version: 1, Type: node.RootTypeState, Hash: h}
+		if tooMany(err) {
+			// the end root is not known to the database; the model only needs an identifier
+			end.Hash = hashOf([]kv{{[]byte("a"), []byte(val)}, {[]byte("b"), []byte(val)}})
+			calls = append(calls, fmt.Sprintf("TCommit (mkBatch %s %s [] [] None [])", rid(root0), rid(end)))
+			obs = append(obs, "ORefused")
+			res.hist["seqburn:commit-refused"]++
+			return
+		}
+		if err != nil {
+			panic(fmt.Errorf("commit: %w", err))
+		}
+		cb, err := pathbadger.VerifReadCommittedBatch(ndb, root0, end)
+		if err != nil {
+			panic(fmt.Errorf("hook: %w", err))
+		}
+		var nodes, removed, raw []string
+		for _, u := range cb.Updated {
+			if u.Removed {
+				removed = append(removed, fmt.Sprintf("(%d, %d)", u.Version, u.Index))
+			} else if u.Node.Found {
+				nodes = append(nodes, fmt.Sprintf("((%d, %d), %s)", u.Version, u.Index, node2coq(u.Node)))
+			}
+		}
+		for _, e := range cb.Log {
+			switch {
+			case len(e) == 13 && e[0] == 0x01:
+				raw = append(raw, fmt.Sprintf("IInsert (%d, %d)", binary.BigEndian.Uint64(e[1:9]), binary.BigEndian.Uint32(e[9:13])))
+			case len(e) >= 1 && e[0] == 0x02:
+				raw = append(raw, "IDelete "+coqout.Bytes(e[1:]))
+			default:
+				raw = append(raw, "IBad")
+			}
+		}
+		rootNode := "None"
+		if cb.RootNode.Found {
+			rootNode = "(Some " + node2coq(cb.RootNode) + ")"
+		}
+		calls = append(calls, fmt.Sprintf("TCommit (mkBatch %s %s %s %s %s %s)", rid(root0), rid(end),
+			coqout.List(nodes), coqout.List(removed), rootNode, coqout.List(raw)))
+		obs = append(obs, fmt.Sprintf("OSeq %d", cb.SeqNo))
+		res.hist[fmt.Sprintf("seqburn:commit-seq:%d", cb.SeqNo)]++
+		var committed []entry
+		for _, e := range cwl {
+			committed = append(committed, entry{k: e.Key, v: e.Value, del: e.Value == nil})
+		}
+		roots = append(roots, stored{end, sortLog(committed)})
+	}
+	burn := func(n int) {
+		granted := 0
+		for i := 0; i < n; i++ {
+			b, err := ndb.NewBatch(root0, 1, false)
+			if tooMany(err) {
+				continue
+			}
+			if err != nil {
+				panic(fmt.Errorf("NewBatch: %w", err))
+			}
+			b.Reset()
+			granted++
+		}
+		calls = append(calls, fmt.Sprintf("TBurn 1 %d", n))
+		obs = append(obs, fmt.Sprintf("OBurn %d", granted))
+		res.hist["seqburn:reservations-granted"] += granted
+		res.hist["seqburn:reservations-refused"] += n - granted
+	}
+	get := func(when string, st stored) {
+		it, err := b1.impl.GetDiff(ctx, &api.GetDiffRequest{StartRoot: root0, EndRoot: st.root})
+		var log []entry
+		if err == nil {
+			log, err = foldLog(it)
+		}
+		o := "GError"
+		switch {
+		case err == nil:
+			o = "(GServed " + coqLog(log) + ")"
+			// S: a served log is the one committed for that root
+			if !logEqual(sortLog(log), st.log) {
+				res.violations = append(res.violations, fmt.Sprintf("seqburn (%s): the write log served for root %s is not the one committed for it (another root's nodes overwrote its final slots)", when, rid(st.root)))
+			}
+		case errors.Is(err, nodedb.ErrWriteLogNotFound):
+			o = "GNotFound"
+		case errors.Is(err, nodedb.ErrRootNotFound):
+			o = "GRootNotFound"
+		}
+		res.hist["seqburn:get:"+strings.Trim(strings.SplitN(o, " ", 2)[0], "(")]++
+		calls = append(calls, fmt.Sprintf("TGet %s %s", rid(root0), rid(st.root)))
+		obs = append(obs, "OGet "+o)
+	}
+
+	commit("1")  // A: reservation 1, sequence number 0
+	burn(65533)  // reservations 2..65534
+	commit("2")  // B: after 65534 reservations
+	commit("3")  // C: after 65535 (a wrapping counter would grant 65535 here ...)
+	commit("4")  // D: after 65536 (... and 0 again here, A's number)
+	for _, st := range roots {
+		get("pending", st)
+	}
+	if len(roots) >= 2 {
+		pick := roots[1]
+		if err := ndb.Finalize([]node.Root{pick.root}); err != nil {
+			panic(fmt.Errorf("finalize: %w", err))
+		}
+		calls = append(calls, fmt.Sprintf("TFinalize 1 %s", rid(pick.root)))
+		obs = append(obs, "ODone")
+		for _, st := range roots {
+			get("finalized", st)
+		}
+	}
+	res.pairs = append(res.pairs, pairResult{store: true,
+		coq:  fmt.Sprintf("(%s,\n  %s)", coqout.List(calls), coqout.List(obs)),
+		desc: map[string]any{"case": sc}, nontriv: true, key: "seqburn"})
+	return res
+}
+
 func runScenario(sc Scenario) (res runResult) {
+	if sc.SeqBurn {
+		return runSeqBurn(sc)
+	}
 	res.hist = map[string]int{}
 	defer func() {
 		if e := recover(); e != nil {
@@ -1636,6 +1816,9 @@ func main() {
 		}
 		if *mode == "pbenc" {
 			scs = append(scs, encScenarios()...)
+		}
+		if *mode == "pbstore" {
+			scs = append(scs, Scenario{SeqBurn: true, Backend: "pathbadger", Backend2: "pathbadger", Type: "state"})
 		}
 		r := prng.New(*seed)
 		for i := 0; i < *n; i++ {
